@@ -1012,6 +1012,50 @@ func ruleGenericCodec(c *Ctx) {
 				if spec.enc {
 					// instruction[offset+j] = byte(n >> k) | byte(n) | byte(o)
 					for _, st := range cc.Body {
+						// binary.BigEndian.PutUintN(instruction[offset+j:], uintN(o))
+						if es, ok := st.(*ast.ExprStmt); ok {
+							if call, ok := es.X.(*ast.CallExpr); ok && len(call.Args) == 2 {
+								if f := Callee(spec.p, call); f != nil && f.Pkg() != nil && f.Pkg().Path() == "encoding/binary" {
+									nb := map[string]int{"PutUint16": 2, "PutUint32": 4, "PutUint64": 8}[f.Name()]
+									recv := ""
+									if sig, ok := f.Type().(*types.Signature); ok && sig.Recv() != nil {
+										recv = sig.Recv().Type().String()
+									}
+									sl, isSl := ast.Unparen(call.Args[0]).(*ast.SliceExpr)
+									if nb == 0 || !isSl || sl.Low == nil {
+										bad = "unexpected store: " + w.Src(st)
+										continue
+									}
+									j, okj := offsetPlus(spec.p, sl.Low)
+									if !okj {
+										bad = "slice not from offset+const: " + w.Src(sl)
+										continue
+									}
+									val := ast.Unparen(call.Args[1])
+									for {
+										cv, ok := val.(*ast.CallExpr)
+										if !ok || len(cv.Args) != 1 || !spec.p.TypesInfo.Types[cv.Fun].IsType() {
+											break
+										}
+										val = ast.Unparen(cv.Args[0])
+									}
+									if _, isBin := val.(*ast.BinaryExpr); isBin {
+										bad = "the value written is not the operand itself: " + w.Src(call.Args[1])
+									}
+									for i := 0; i < nb; i++ {
+										switch {
+										case strings.HasSuffix(recv, "bigEndian"):
+											shifts[j+i] = 8 * (nb - 1 - i)
+										case strings.HasSuffix(recv, "littleEndian"):
+											shifts[j+i] = 8 * i
+										default:
+											bad = "byte order of " + w.Src(call.Fun) + " not known"
+										}
+									}
+									continue
+								}
+							}
+						}
 						as, ok := st.(*ast.AssignStmt)
 						if !ok || len(as.Lhs) != 1 {
 							continue
@@ -1141,6 +1185,179 @@ func ruleGenericCodec(c *Ctx) {
 				acc, loopAt = spec.p.TypesInfo.ObjectOf(id), rs
 				return true
 			})
+			if acc == nil {
+				// the same, from the last byte up: `for j := off+width-1; j >= off; j--
+				// { v |= T(ins[j]) << sh; sh += 8 }` with sh starting at zero
+				ast.Inspect(spec.fd.Body, func(n ast.Node) bool {
+					fs, ok := n.(*ast.ForStmt)
+					if !ok || fs.Init == nil || fs.Cond == nil || fs.Post == nil || len(fs.Body.List) != 2 {
+						return true
+					}
+					init, ok := fs.Init.(*ast.AssignStmt)
+					if !ok || init.Tok != token.DEFINE || len(init.Lhs) != 1 {
+						return true
+					}
+					jv := spec.p.TypesInfo.ObjectOf(init.Lhs[0].(*ast.Ident))
+					post, ok := fs.Post.(*ast.IncDecStmt)
+					if !ok || post.Tok != token.DEC || spec.p.TypesInfo.ObjectOf(identOf(post.X)) != jv {
+						return true
+					}
+					cond, ok := ast.Unparen(fs.Cond).(*ast.BinaryExpr)
+					if !ok || cond.Op != token.GEQ || spec.p.TypesInfo.ObjectOf(identOf(cond.X)) != jv {
+						return true
+					}
+					lowID := identOf(cond.Y)
+					if lowID == nil {
+						return true
+					}
+					// the start is low + width - 1
+					start := w.Src(init.Rhs[0])
+					var widthVar string
+					for _, fl := range spec.fd.Body.List {
+						if rs, ok := fl.(*ast.RangeStmt); ok && rs.Value != nil {
+							widthVar = w.Src(rs.Value)
+						}
+					}
+					startOK := false
+					for _, form := range []string{"%s + %s - 1", "%s - 1 + %s"} {
+						if start == fmt.Sprintf(form, lowID.Name, widthVar) || start == fmt.Sprintf(form, widthVar, lowID.Name) {
+							startOK = true
+						}
+					}
+					if !startOK {
+						return true
+					}
+					var accID, shID *ast.Ident
+					for _, st := range fs.Body.List {
+						as, ok := st.(*ast.AssignStmt)
+						if !ok || len(as.Lhs) != 1 || len(as.Rhs) != 1 {
+							return true
+						}
+						id := identOf(as.Lhs[0])
+						if id == nil {
+							return true
+						}
+						switch as.Tok {
+						case token.OR_ASSIGN:
+							sh, ok := ast.Unparen(as.Rhs[0]).(*ast.BinaryExpr)
+							if !ok || sh.Op != token.SHL {
+								return true
+							}
+							// T(ins[j])
+							x := ast.Unparen(sh.X)
+							if cv, ok := x.(*ast.CallExpr); ok && len(cv.Args) == 1 && spec.p.TypesInfo.Types[cv.Fun].IsType() {
+								x = ast.Unparen(cv.Args[0])
+							}
+							ix, ok := x.(*ast.IndexExpr)
+							if !ok || spec.p.TypesInfo.ObjectOf(identOf(ix.Index)) != jv {
+								return true
+							}
+							accID, shID = id, identOf(sh.Y)
+						case token.ADD_ASSIGN:
+							if k, ok := ConstInt(spec.p, as.Rhs[0]); !ok || k != 8 {
+								return true
+							}
+							if shID != nil && spec.p.TypesInfo.ObjectOf(shID) != spec.p.TypesInfo.ObjectOf(id) {
+								return true
+							}
+							if shID == nil {
+								shID = id
+							}
+						default:
+							return true
+						}
+					}
+					if accID == nil || shID == nil {
+						return true
+					}
+					// the shift count starts at zero and only this loop moves it
+					shObj := spec.p.TypesInfo.ObjectOf(shID)
+					zero, writes := false, 0
+					ast.Inspect(spec.fd.Body, func(m ast.Node) bool {
+						switch x := m.(type) {
+						case *ast.AssignStmt:
+							for i, l := range x.Lhs {
+								if id := identOf(l); id != nil && spec.p.TypesInfo.ObjectOf(id) == shObj {
+									writes++
+									if x.Tok == token.DEFINE || x.Tok == token.ASSIGN {
+										if len(x.Rhs) == len(x.Lhs) {
+											r := ast.Unparen(x.Rhs[i])
+											if cv, ok := r.(*ast.CallExpr); ok && len(cv.Args) == 1 && spec.p.TypesInfo.Types[cv.Fun].IsType() {
+												r = cv.Args[0]
+											}
+											if k, ok := ConstInt(spec.p, r); ok && k == 0 {
+												zero = true
+											}
+										}
+									}
+								}
+							}
+						case *ast.ValueSpec:
+							for _, nm := range x.Names {
+								if spec.p.TypesInfo.ObjectOf(nm) == shObj && len(x.Values) == 0 {
+									zero = true
+									writes++
+								}
+							}
+						case *ast.IncDecStmt:
+							if id := identOf(x.X); id != nil && spec.p.TypesInfo.ObjectOf(id) == shObj {
+								writes += 2
+							}
+						}
+						return true
+					})
+					// both start from zero for every operand: set in the statements
+					// just before the loop, in its own block
+					accObj := spec.p.TypesInfo.ObjectOf(accID)
+					zeroed := map[types.Object]bool{}
+					ast.Inspect(spec.fd.Body, func(m ast.Node) bool {
+						var list []ast.Stmt
+						switch x := m.(type) {
+						case *ast.BlockStmt:
+							list = x.List
+						case *ast.CaseClause:
+							list = x.Body
+						}
+						for i, st := range list {
+							if st != ast.Stmt(fs) {
+								continue
+							}
+							for _, prev := range list[:i] {
+								switch x := prev.(type) {
+								case *ast.AssignStmt:
+									if len(x.Lhs) != len(x.Rhs) || (x.Tok != token.DEFINE && x.Tok != token.ASSIGN) {
+										continue
+									}
+									for k, l := range x.Lhs {
+										r := ast.Unparen(x.Rhs[k])
+										if cv, ok := r.(*ast.CallExpr); ok && len(cv.Args) == 1 && spec.p.TypesInfo.Types[cv.Fun].IsType() {
+											r = cv.Args[0]
+										}
+										if v, ok := ConstInt(spec.p, r); ok && v == 0 && identOf(l) != nil {
+											zeroed[spec.p.TypesInfo.ObjectOf(identOf(l))] = true
+										}
+									}
+								case *ast.DeclStmt:
+									if gd, ok := x.Decl.(*ast.GenDecl); ok {
+										for _, sp := range gd.Specs {
+											if vs, ok := sp.(*ast.ValueSpec); ok && len(vs.Values) == 0 {
+												for _, nm := range vs.Names {
+													zeroed[spec.p.TypesInfo.ObjectOf(nm)] = true
+												}
+											}
+										}
+									}
+								}
+							}
+						}
+						return true
+					})
+					if zero && writes == 2 && zeroed[shObj] && zeroed[accObj] {
+						acc, loopAt = accObj, fs
+					}
+					return true
+				})
+			}
 			if acc != nil {
 				bits := 0
 				if bt, ok := acc.Type().Underlying().(*types.Basic); ok {
@@ -1759,6 +1976,35 @@ func ruleCODEC4(c *Ctx) {
 				continue
 			}
 			src := strings.ReplaceAll(w.Src(a), " ", "")
+			// the tag of an enclosing switch, inside a clause that lists constants:
+			// the operand is one of the listed values
+			{
+				bare := w.Src(stripConv(p, a))
+				done := false
+				for si := len(stack) - 1; si >= 2 && !done; si-- {
+					cc, ok := stack[si].(*ast.CaseClause)
+					if !ok || cc.List == nil {
+						continue
+					}
+					sw, ok := stack[si-2].(*ast.SwitchStmt)
+					if !ok || sw.Tag == nil || w.Src(sw.Tag) != bare {
+						continue
+					}
+					fits := true
+					for _, e := range cc.List {
+						if k, ok := ConstInt(p, e); !ok || k < 0 || k > max {
+							fits = false
+						}
+					}
+					if fits {
+						c.ok(key, es.Call, "the switch tag inside a clause whose listed constants all fit")
+						done = true
+					}
+				}
+				if done {
+					continue
+				}
+			}
 			// a local flag assigned only constants
 			if id, ok := ast.Unparen(a).(*ast.Ident); ok {
 				obj := p.TypesInfo.Uses[id]
